@@ -13,7 +13,7 @@ from dataclasses import dataclass
 from typing import Union, Dict, Set, List, Tuple, Any
 
 from flipjump.utils.exceptions import FlipJumpExprException
-from flipjump.assembler.inner_classes.expr import Expr
+from flipjump.assembler.inner_classes.expr import Expr, int_to_str
 
 
 @dataclass
@@ -334,7 +334,7 @@ class RepCall:
         @note assumes calculate_times successfully called before
         """
         return (
-            f'rep({self.source_iterator_name}={self.current_index}, out of 0..{int(self.repeat_times)-1}) '
+            f'rep({self.source_iterator_name}={self.current_index}, out of 0..{int_to_str(int(self.repeat_times) - 1)}) '
             f'macro {self.macro_name}  ({self.code_position})'
         )
 
